@@ -245,10 +245,24 @@ func (r *scopeRegistry) Subscope(parent *scope, prefix string, tags map[string]s
 	defer subscopeBucket.mu.Unlock()
 
 	if s, ok := r.lockedLookup(subscopeBucket, sanitizedKey); ok {
-		if _, ok = r.lockedLookup(subscopeBucket, unsanitizedKey); !ok {
-			subscopeBucket.s[unsanitizedKey] = s
+		if !s.closed.Load() || s.testScope {
+			if _, ok = r.lockedLookup(subscopeBucket, unsanitizedKey); !ok {
+				subscopeBucket.s[unsanitizedKey] = s
+			}
+			return s
 		}
-		return s
+
+		// n.b. The scope registered under the sanitized key has been closed
+		//      (it was not found above because this spelling of the tags was
+		//      not registered, or it was closed in the meantime): report it
+		//      now like above and replace it with a fresh scope below.
+		switch {
+		case parent.reporter != nil:
+			s.report(parent.reporter)
+		case parent.cachedReporter != nil:
+			s.cachedReport()
+		}
+		s.clearMetrics()
 	}
 
 	allTags := mergeRightTags(parent.tags, tags)
